@@ -704,6 +704,13 @@ fn consume_expr<'i>(
         _ => unreachable!("infix"),
     };
 
+    // The meta-grammar allows a leading `|` in every expression, nested ones (in parentheses or
+    // PUSH(..)) included; `consume_rules_with_spans` only skips it for the top-level expression.
+    let mut pairs = pairs;
+    if pairs.peek().map(|pair| pair.as_rule()) == Some(Rule::choice_operator) {
+        pairs.next();
+    }
+
     pratt.map_primary(term).map_infix(infix).parse(pairs)
 }
 
